@@ -146,6 +146,23 @@ def gen_directives():
     return lambda: itertools.chain.from_iterable(batched(fe, texts()) for fe in ("pp", "preprocess__"))
 
 
+def gen_line_directives():
+    """`#line` directives as the tokenizers of the parsers see them (the preprocessor emits them, text handed to compile /
+    configparse__ may contain anything): every combination of number form, file part, line ending and position."""
+    def g():
+        for fe in ("sqf", "config", "compile", "configparse__"):
+            def texts():
+                for num in ("", " 1", " 7", " 99999999999", " x", " -1", "7"):
+                    for fpart in ("", " ", ' "f.sqf"', ' "', " x", ' "f" y', ' ""', " '", ' "f', " \\"):
+                        for eol in ("\n", "\r\n", "", "\r", "\r\r\n"):
+                            for tail in ("", "a", "a = 1;"):
+                                yield "#line" + num + fpart + eol + tail
+                                yield "a = 1;\n#line" + num + fpart + eol + tail
+            for b in batched(fe, texts()):
+                yield b
+    return g
+
+
 def gen_ladders(depths):
     def g():
         for fe in FES:
@@ -231,5 +248,6 @@ def spaces(tier):
         Space("corpus-truncations", gen_corpus(3 if q else 1), check, variant="asan", describe="every prefix and suffix-truncation of the corpus (step %d)" % (3 if q else 1)),
         Space("token-mutations", gen_mutations(2 if q else 6), check, variant="asan", describe="delete / duplicate / replace each token by each of %d token kinds" % len(REPL)),
         Space("directive-graphs", gen_directives(), check, variant="asan", describe="#define graphs over 3 object-like and 2 function-like macros incl. self/mutual recursion; stray directives"),
+        Space("line-directives", gen_line_directives(), check, variant="asan", describe="#line directives in the parsers' tokenizers: number forms x file parts x LF / CRLF / CR / none x position"),
         Space("nesting-ladders", gen_ladders([1, 10, 100, 300]), check, variant="asan", describe="nesting depth ladders for ( [ { class, unary chains, long strings"),
     ]
